@@ -181,7 +181,11 @@ func (c *FileCache[MetadataT]) Cache(key CacheKey, data io.Reader, expires time.
 	defer lock.Unlock()
 
 	fileName := filepath.Join(c.rootDir.Path, key.Hex)
-	file, err := os.Create(fileName)
+	// The data is written to a temporary name and renamed into place once it is complete:
+	// readers that still hold the previous file keep reading the previous, unmodified file,
+	// and a failed or empty write leaves the previous entry untouched.
+	tmpName := fileName + ".tmp"
+	file, err := os.Create(tmpName)
 	if err != nil {
 		metrics.Global.Cache.CacheErrors.Increment()
 		slog.Error("Failed to create cache file", "key", key.Hex, "error", err)
@@ -191,7 +195,7 @@ func (c *FileCache[MetadataT]) Cache(key CacheKey, data io.Reader, expires time.
 	fileSize, err := io.Copy(file, data)
 	if err != nil {
 		file.Close()
-		os.Remove(fileName)
+		os.Remove(tmpName)
 		metrics.Global.Cache.CacheErrors.Increment()
 		slog.Error("Failed to write cache file", "key", key.Hex, "error", err)
 		return nil, fmt.Errorf("%w: failed to write cache file '%s'", ErrCacheFileWrite, fileName)
@@ -199,10 +203,18 @@ func (c *FileCache[MetadataT]) Cache(key CacheKey, data io.Reader, expires time.
 
 	if fileSize == 0 {
 		file.Close()
-		os.Remove(fileName)
+		os.Remove(tmpName)
 		metrics.Global.Cache.CacheErrors.Increment()
 		slog.Error("Cache file is empty", "key", key.Hex, "file_size", fileSize)
 		return nil, fmt.Errorf("%w: wrote 0 bytes to cache file '%s'", ErrCacheFileEmpty, fileName)
+	}
+
+	if err := os.Rename(tmpName, fileName); err != nil {
+		file.Close()
+		os.Remove(tmpName)
+		metrics.Global.Cache.CacheErrors.Increment()
+		slog.Error("Failed to move cache file into place", "key", key.Hex, "error", err)
+		return nil, fmt.Errorf("%w: failed to move cache file into place '%s'", ErrCacheFileWrite, fileName)
 	}
 
 	meta := &EntryMetadata[MetadataT]{
